@@ -25,6 +25,9 @@ class DiscUnit(Unit):
         if 'restricted_vis' in prog.tags:
             plan = {k: v for k, v in plan.items() if k[2] != 'discriminant'}
         return pre, plan, consts, lem
+    def candidate_replay(self, ctx, prog, o):
+        from .. import lreplay
+        return lreplay.disc(prog, o.fn)
     def extra_checks(self, ctx, progs, items):
         for p in progs:
             o = core.Obligation('%s/rustc:discriminant-type-has-requested-derives-under-its-name' % p.name, p.name, 'derives', 'rustc', ['C09'])
@@ -55,6 +58,9 @@ class IsUnit(Unit):
         return progs
     def gen(self, ctx, prog):
         return spec_misc.gen_is(prog)
+    def candidate_replay(self, ctx, prog, o):
+        from .. import lreplay
+        return lreplay.is_try(prog, o.fn)
     def kani_module(self, ctx, prog):
         return spec_misc.kani_is(prog)[0]
     def kani_harnesses(self, ctx, prog):
@@ -77,6 +83,9 @@ class MsgUnit(Unit):
         return corpus.corpus_msg(ctx.tier, ctx.seed)
     def gen(self, ctx, prog):
         return spec_misc.gen_message(prog)
+    def candidate_replay(self, ctx, prog, o):
+        from .. import lreplay
+        return lreplay.message(prog, o.fn)
     def kani_module(self, ctx, prog):
         return spec_misc.kani_message(prog)[0]
     def kani_harnesses(self, ctx, prog):
@@ -90,6 +99,9 @@ class PropsUnit(Unit):
         return corpus.corpus_props(ctx.tier, ctx.seed)
     def gen(self, ctx, prog):
         return spec_misc.gen_props(prog)
+    def candidate_replay(self, ctx, prog, o):
+        from .. import lreplay
+        return lreplay.props(prog, o.fn)
 
 def run(ctx):
     return {'C09': DiscUnit, 'C13': IsUnit, 'C14': MsgUnit, 'C15': PropsUnit}[ctx.pid]().run(ctx)
